@@ -24,12 +24,12 @@ def plan(tier):
 
 # ---- contents ---------------------------------------------------------------------------------------
 def variants():
-    nicks = ['n', 'N' * 30, 'M' * 31]
+    nicks = ['n', 'N' * 30, 'M' * 31, 'n%s%n']
     users = ['abc', 'abcdefghi', 'abcdefghij', 'abcdefghijk', '~joe']
     idents = [None, '', 'i234567890', 'i2345678901', '~ident']
     hosts = [None, 'h', ('h' * 59) + '.org', ('h' * 60) + '.org']
-    reals = ['Real', 'Real Name: with colon', 'R' * 50, 'S' * 51]
-    creds = ['+x acct pass', '+x ' + 'a' * 30 + ' ' + 'p' * 370, '+x  acct   pass  word']
+    reals = ['Real', 'Real Name: with colon', 'R' * 50, 'S' * 51, 'R%s %n%d 100%%']
+    creds = ['+x acct pass', '+x ' + 'a' * 30 + ' ' + 'p' * 370, '+x  acct   pass  word', '+x ac%sct pa%nss%d%%']
     return list(itertools.product(nicks, users, idents, hosts, reals, creds))
 
 ORDERS = ('data-then-password', 'password-first', 'hurry-early')
